@@ -25,6 +25,11 @@ type Effects struct {
 	extMods       map[*ssa.Function]map[string]bool
 	extPMods      map[*ssa.Function]map[int]map[string]bool
 	allocators    map[*ssa.Function]int
+	// FVMods: keys a closure writes directly through one of its free variables (the captured
+	// variable itself). Whether such a write is visible outside depends on where the variable
+	// lives: a local of the function that creates the closure is invisible to that function's
+	// callers.
+	FVMods map[*ssa.Function]map[int]map[string]bool
 }
 
 func typeName(t types.Type) string {
@@ -124,7 +129,7 @@ func storeKeys(d *Decls, addr ssa.Value) []string {
 
 func NewEffects(P *Program, S *Specs) *Effects {
 	E := &Effects{P: P, S: S, D: NewDecls(), Mods: map[*ssa.Function]map[string]bool{}, PMods: map[*ssa.Function]map[int]map[string]bool{},
-		bySig: map[string][]*ssa.Function{}, impls: map[string][]*ssa.Function{}, allocs: map[*ssa.Function]bool{}}
+		bySig: map[string][]*ssa.Function{}, impls: map[string][]*ssa.Function{}, allocs: map[*ssa.Function]bool{}, FVMods: map[*ssa.Function]map[int]map[string]bool{}}
 	for _, f := range P.AllFuncs {
 		E.Mods[f] = map[string]bool{}
 		E.PMods[f] = map[int]map[string]bool{}
@@ -142,6 +147,22 @@ func NewEffects(P *Program, S *Specs) *Effects {
 				switch x := ins.(type) {
 				case *ssa.Store:
 					if al, ok := x.Addr.(*ssa.Alloc); ok && !al.Heap {
+						continue
+					}
+					if fv, ok := x.Addr.(*ssa.FreeVar); ok {
+						for i, v := range f.FreeVars {
+							if v == fv {
+								if E.FVMods[f] == nil {
+									E.FVMods[f] = map[int]map[string]bool{}
+								}
+								if E.FVMods[f][i] == nil {
+									E.FVMods[f][i] = map[string]bool{}
+								}
+								for _, k := range storeKeys(E.D, x.Addr) {
+									E.FVMods[f][i][k] = true
+								}
+							}
+						}
 						continue
 					}
 					cls, pi := E.classifyRoot(f, x.Addr)
@@ -327,7 +348,7 @@ func (E *Effects) callbackModsFrom(caller *ssa.Function, args []ssa.Value, out m
 		switch t := a.Type().Underlying().(type) {
 		case *types.Signature:
 			if mc, ok := a.(*ssa.MakeClosure); ok {
-				for k := range E.modsOfFn(mc.Fn.(*ssa.Function)) {
+				for k := range E.closureMods(caller, mc) {
 					out[k] = true
 				}
 				continue
@@ -339,7 +360,7 @@ func (E *Effects) callbackModsFrom(caller *ssa.Function, args []ssa.Value, out m
 				continue
 			}
 			for _, f := range E.bySig[sigKey(t)] {
-				for k := range E.Mods[f] {
+				for k := range E.modsAll(f) {
 					out[k] = true
 				}
 			}
@@ -372,6 +393,10 @@ func (E *Effects) callbackModsFrom(caller *ssa.Function, args []ssa.Value, out m
 	}
 }
 
+// View: with useContracts == false the result is the effect as seen by the CALLERS of the function
+// containing the call (writes to objects that function allocated itself, and ghost state of fresh
+// objects, are left out); with useContracts == true it is the effect on the state INSIDE that
+// function (loop havoc, executor), where those writes are visible.
 // callMods returns the heap keys that a call may write. When useContracts is true, an explicit
 // assigns clause on the callee's contract takes precedence over the computed set.
 func (E *Effects) callMods(ci ssa.CallInstruction, useContracts bool) map[string]bool {
@@ -385,6 +410,10 @@ func (E *Effects) callMods(ci ssa.CallInstruction, useContracts bool) map[string
 		for _, a := range ct.Assigns {
 			if strings.HasPrefix(strings.TrimSpace(a), "fields(") {
 				ownership = true
+			} else if !useContracts && E.ghostOfFreshObject(ci, ct, strings.TrimSpace(a)) {
+				// ghost state of an object that did not exist before the caller started (the
+				// call's own fresh result, or an argument the caller allocated): invisible to
+				// the caller's callers
 			} else {
 				plain.Assigns = append(plain.Assigns, a)
 			}
@@ -440,7 +469,7 @@ func (E *Effects) callMods(ci ssa.CallInstruction, useContracts bool) map[string
 			}
 			for ai, keys := range E.PMods[v] {
 				if ai < len(c.Args) {
-					if cls, _ := E.classifyRoot(ci.Parent(), c.Args[ai]); cls == rootLocal {
+					if cls, _ := E.classifyRoot(ci.Parent(), c.Args[ai]); cls == rootLocal && !useContracts {
 						continue
 					}
 				}
@@ -458,7 +487,7 @@ func (E *Effects) callMods(ci ssa.CallInstruction, useContracts bool) map[string
 		}
 		for ai, keys := range pm {
 			if ai < len(c.Args) {
-				if cls, _ := E.classifyRoot(ci.Parent(), c.Args[ai]); cls == rootLocal {
+				if cls, _ := E.classifyRoot(ci.Parent(), c.Args[ai]); cls == rootLocal && !useContracts {
 					continue
 				}
 			}
@@ -470,7 +499,13 @@ func (E *Effects) callMods(ci ssa.CallInstruction, useContracts bool) map[string
 		out[liveKey] = true
 		return out
 	case *ssa.MakeClosure:
-		for k := range E.modsOfFn(v.Fn.(*ssa.Function)) {
+		if useContracts {
+			for k := range E.modsAll(v.Fn.(*ssa.Function)) {
+				out[k] = true
+			}
+			return out
+		}
+		for k := range E.closureMods(ci.Parent(), v) {
 			out[k] = true
 		}
 		return out
@@ -478,7 +513,7 @@ func (E *Effects) callMods(ci ssa.CallInstruction, useContracts bool) map[string
 		// dynamic call of a func value
 		if sig, ok := c.Value.Type().Underlying().(*types.Signature); ok {
 			for _, f := range E.bySig[sigKey(sig)] {
-				for k := range E.Mods[f] {
+				for k := range E.modsAll(f) {
 					out[k] = true
 				}
 			}
@@ -704,6 +739,132 @@ func storeBaseIsLocalAlloc(addr ssa.Value) bool {
 }
 
 // modsOfFn resolves bound-method wrappers and thunks to the method they wrap.
+// contractFreshResult: the contract promises a fresh result ("fresh" directive or an ensures clause
+// containing fresh(result)).
+func contractFreshResult(ct *Contract) bool {
+	if ct == nil {
+		return false
+	}
+	if ct.Fresh {
+		return true
+	}
+	for _, e := range ct.Ensures {
+		if strings.Contains(e.Src, "fresh(result)") {
+			return true
+		}
+	}
+	return false
+}
+
+// ghostOfFreshObject: assigns entry "g(x)" of the callee's contract where x is the call's fresh
+// result, or a receiver/argument that the calling function allocated itself.
+func (E *Effects) ghostOfFreshObject(ci ssa.CallInstruction, ct *Contract, a string) bool {
+	i := strings.Index(a, "(")
+	if i <= 0 || !strings.HasSuffix(a, ")") {
+		return false
+	}
+	if _, ok := E.S.GhostFields[a[:i]]; !ok {
+		return false
+	}
+	x := strings.TrimSpace(a[i+1 : len(a)-1])
+	c := ci.Common()
+	if x == "result" || x == "result0" {
+		return contractFreshResult(ct)
+	}
+	var actual ssa.Value
+	sig := c.Signature()
+	if c.IsInvoke() {
+		sig = c.Method.Type().(*types.Signature)
+		if x == "recv" {
+			actual = c.Value
+		}
+		for j, n := range paramNames(ct, sig) {
+			if n == x && j < len(c.Args) {
+				actual = c.Args[j]
+			}
+		}
+	} else {
+		off := 0
+		if sig.Recv() != nil {
+			off = 1
+			if (x == "recv" || x == sig.Recv().Name()) && len(c.Args) > 0 {
+				actual = c.Args[0]
+			}
+		}
+		for j, n := range paramNames(ct, sig) {
+			if n == x && j+off < len(c.Args) {
+				actual = c.Args[j+off]
+			}
+		}
+	}
+	if actual == nil || ci.Parent() == nil {
+		return false
+	}
+	cls, _ := E.classifyRoot(ci.Parent(), actual)
+	return cls == rootLocal
+}
+
+// closureMods: what calling (or handing out) the closure mc, created in caller, may write: the
+// closure function's own effects plus its writes to captured variables that are not locals of the
+// creating function.
+func (E *Effects) closureMods(caller *ssa.Function, mc *ssa.MakeClosure) map[string]bool {
+	g := mc.Fn.(*ssa.Function)
+	out := map[string]bool{}
+	for k := range E.modsOfFn(g) {
+		out[k] = true
+	}
+	for i, keys := range E.FVMods[g] {
+		if i < len(mc.Bindings) {
+			if al, ok := mc.Bindings[i].(*ssa.Alloc); ok && al.Parent() == caller {
+				continue
+			}
+		}
+		for k := range keys {
+			out[k] = true
+		}
+	}
+	return out
+}
+
+// localClosureFVKeys: the captured-variable cells that closures handed to (or invoked by) this call
+// may write. Inside the function that owns those variables the writes are visible, so the executor
+// havocs these keys at the call even though they are not part of the function's own effect.
+func (E *Effects) localClosureFVKeys(ci ssa.CallInstruction) map[string]bool {
+	out := map[string]bool{}
+	add := func(v ssa.Value) {
+		if mc, ok := v.(*ssa.MakeClosure); ok {
+			for _, keys := range E.FVMods[mc.Fn.(*ssa.Function)] {
+				for k := range keys {
+					out[k] = true
+				}
+			}
+		}
+	}
+	c := ci.Common()
+	add(c.Value)
+	for _, a := range c.Args {
+		add(a)
+	}
+	return out
+}
+
+// modsAll: effects of a function reached without its creation site in view (dynamic call).
+func (E *Effects) modsAll(f *ssa.Function) map[string]bool {
+	if len(E.FVMods[f]) == 0 {
+		return E.Mods[f]
+	}
+	out := map[string]bool{}
+	for k := range E.Mods[f] {
+		out[k] = true
+	}
+	for _, keys := range E.FVMods[f] {
+		for k := range keys {
+			out[k] = true
+		}
+	}
+	return out
+}
+
 func (E *Effects) modsOfFn(f *ssa.Function) map[string]bool {
 	if m, ok := E.Mods[f]; ok {
 		return m
@@ -844,6 +1005,9 @@ func (E *Effects) classifyRoot(f *ssa.Function, v ssa.Value) (int, int) {
 			return rootUnknown, 0
 		case *ssa.Call:
 			if cf, ok := a.Call.Value.(*ssa.Function); ok && E.isAllocator(cf) {
+				return rootLocal, 0
+			}
+			if contractFreshResult(E.S.Contracts[calleeName(&a.Call)]) {
 				return rootLocal, 0
 			}
 			return rootUnknown, 0
